@@ -38,7 +38,9 @@ chk = Check('C13', 'exploration',
             '[boundary] systems x 6 (m,n) x sizes x centres x {cylinder, box} x widths {0, 0.25, 0.6 of the half width, '
             'scaled}; [array] systems x 6 (m,n) x sizes x every shiftindex x centres x linear{F,T} x boundary width '
             '{0, w}; [disreg] systems x 6 (m,n) x {monopole, array-linear, array-elastic} x centres at width W and 2W; '
-            '[sizes] systems x 6 (m,n) x sizemults container type x amin/bmin/cmin menu x both generators.  '
+            '[sizes] systems x 6 (m,n) x sizemults container type x amin/bmin/cmin menu x both generators; '
+            '[live] 3 systems x 2 (m,n): all histories (constructor variant, optional first call, second call) over {monopole, periodicarray} x '
+            '{shiftindex 0, last shiftindex, explicit shift} on ONE live object, second call compared with the same call on a fresh object.  '
             'A case is one (clause, index tuple); a construction is one generated configuration; '
             'distinct_nontrivial counts distinct generated configurations (hash of the rounded coordinates) in which '
             'at least one atom is displaced by more than 1e-3 |b| (monopole/boundary/disreg) or at least one atom was '
@@ -918,6 +920,80 @@ def sizes(case):
     return fails
 
 
+
+# --------------------------------------------------------------------------
+# one live Dislocation object used for several constructions.  With the shift given explicitly in each call (index or
+# vector) the configuration returned must not depend on what the object was asked before: a generator call is compared,
+# array by array, with the same call on a fresh object.  (Calls WITHOUT shift arguments legitimately use the shift
+# stored by the previous call -- documented -- and are therefore not part of this alphabet.)
+
+LIVE_SYSTEMS = [1, 8, 13]      # fcc 111 edge, bcc 110 edge, hcp basal edge
+LIVE_MN = [0, 3]
+
+
+def live_ops(g, d):
+    nsh = len(d.shifts)
+    sabs = (np.array(d.shifts[0]) + 0.37 * g['mh'] + 0.05 * g['nh']).tolist()
+    ops = []
+    for gen_ in ('monopole', 'array'):
+        for size in (0,):
+            ops.append((gen_, size, 'index0', {'shiftindex': 0}))
+            if nsh > 1:
+                ops.append((gen_, size, 'index%d' % (nsh - 1), {'shiftindex': nsh - 1}))
+            ops.append((gen_, size, 'abs', {'shift': sabs}))
+    return ops
+
+
+def live_call(g, d, op):
+    gen_, size, name, skw = op
+    if gen_ == 'monopole':
+        sm = sizemults(g, SIZES_MONO[size])
+        return d.monopole(sizemults=list(sm), return_base_system=True, **skw)
+    sm = sizemults(g, SIZES_ARRAY[size])
+    try:
+        return d.periodicarray(sizemults=list(sm), return_base_system=True, **skw)
+    except ValueError as e:
+        return ('refused', str(e)[:60])
+
+
+def same_systems(a, b):
+    if isinstance(a, tuple) and a and a[0] == 'refused' or isinstance(b, tuple) and b and b[0] == 'refused':
+        return a == b if (isinstance(a, tuple) and isinstance(b, tuple) and a[0] == 'refused' == b[0]) else False
+    for x, y in zip(a, b):
+        if x.natoms != y.natoms or np.abs(np.array(x.box.vects) - np.array(y.box.vects)).max() > 1e-12 \
+                or np.abs(np.array(x.atoms.pos) - np.array(y.atoms.pos)).max() > 1e-9 \
+                or not np.array_equal(np.array(x.atoms.atype), np.array(y.atoms.atype)) or tuple(x.pbc) != tuple(y.pbc):
+            return False
+    return True
+
+
+@chk.clause('live')
+def live(case):
+    g = geometry(case['sys'], case['mn'])
+    probe = new_disl(g)
+    ops = live_ops(g, probe)
+    nsh = len(probe.shifts)
+    ctors = [('ctor-default', {})] + ([('ctor-index%d' % (nsh - 1), {'shiftindex': nsh - 1})] if nsh > 1 else [])
+    fails = []
+    fresh = {}
+    for k2, op2 in enumerate(ops):
+        fresh[k2] = live_call(g, new_disl(g), op2)
+    for cname, ckw in ctors:
+        for k1 in [None] + list(range(len(ops))):
+            for k2, op2 in enumerate(ops):
+                d = new_disl(g, **ckw)
+                if k1 is not None:
+                    live_call(g, d, ops[k1])
+                got = live_call(g, d, op2)
+                chk.note('live-histories')
+                chk.note('constructions')
+                if not same_systems(got, fresh[k2]):
+                    fails.append(Fail(key='live-%s-%s-depends-on-history' % (op2[0], op2[2]),
+                                      msg='%s(%s) on an object built with %s and used before for %s differs from the same call on a fresh object'
+                                      % (op2[0], op2[2], cname, None if k1 is None else (ops[k1][0], ops[k1][2]))))
+                    return fails
+    return fails
+
 def g_natoms(d, mult):
     return d.rcell.natoms * int(np.prod(mult))
 
@@ -945,6 +1021,8 @@ def gen():
                 for c in range(len(CENTRES)):
                     for w in range(len(DISREG_W)):
                         yield 'disreg', {'sys': si, 'mn': mi, 'gen': gk, 'centre': c, 'w': w}
+            if si in LIVE_SYSTEMS and mi in LIVE_MN:
+                yield 'live', {'sys': si, 'mn': mi}
             for kind in range(4):        # list, tuple, list reused, None
                 for mn_ in range(len(MINS)):
                     for genr in range(2):
